@@ -16,6 +16,9 @@ C05.f unreadable repository files are not skipped: no iterator over repository r
   filter_map(Result::ok)), and every loop over such items propagates the Err case (R-ERRITER).
 C05.g check_pack cuts the pack into length field, header and blobs with exactly the recorded lengths (symbolic lengths,
   shared with C08.f).
+C05.i what check accepts, restore accepts (name validator): backup stores every name the platform allows and check does not
+  look at names, so the reader-side validator (blob::tree::check_node_name) may refuse a name only for its PATH STRUCTURE
+  (not a single normal component) - any byte-level guard may only reject '/' or NUL, the two bytes no unix file name contains.
 """
 import re
 from rules.common import *
@@ -39,6 +42,8 @@ def run(ctx, rep):
                   ("C05.c", "read-data covers the packs the tree walk uses"), ("C05.d", "index vs listing comparison has error arms"),
                   ("C05.e", "check's lookup index is fed like restore's (unmarked packs only)"), ("C05.f", "unreadable repository files are not skipped")):
         rep.rule(r, tx)
+    rep.rule("C05.i", "the name validator refuses only names that backup cannot have stored")
+    name_validator_rule(ctx, rep, "C05.i")
     variants = prog.variants("commands::check::CheckError")
     rep.floor("C05.a", "CheckError variants", len(variants), 30)
     ADD_ERR = "rustic_core::commands::check::CheckResultsCollector::add_error"
@@ -315,3 +320,52 @@ def run(ctx, rep):
         F = prog.find1(rf"^rustic_core::commands::check::{fn}$")
         have = {s[2][1][2] for (b, bi, s) in cons if b.path == F.path or b.path.startswith(F.path + "::")}
         rep.check("C05.d", fn, need <= have, where=F.loc(), what=f"{fn} reports {sorted(need)} ('indexed but absent', 'size differs'): found {sorted(have)}")
+
+
+STRUCT_API = re.compile(r"Components(<'\w+>)? as std::iter::Iterator>::next$|std::path::Path::(new|components|is_absolute|has_root|file_name|parent|is_relative)$|OsStr::(is_empty|len)$|Iterator>::(next|count)$|Option::<T>::(is_some|is_none)$")
+
+
+def name_validator_rule(ctx, rep, R):
+    import cfg as C
+    prog = ctx.prog
+    V = prog.find1(r"^rustic_core::blob::tree::check_node_name$")
+    fam = [V] + prog.closures_of(V)
+    oks = [bi for bi, blk in enumerate(V.blocks) for s_ in blk["s"] if s_[0] == "=" and s_[1] == [0] and s_[2][0] == "agg" and s_[2][1][0] == "adt" and s_[2][1][2] == "Ok"]
+    rep.require(R, "check_node_name/ok-exit", len(oks) >= 1, where=V.loc(), what="check_node_name has an accepting exit")
+    nonstruct = []
+    n_guard = 0
+    for ob in oks:
+        for (sw, succ) in C.transitive_control_deps(V, ob):
+            t = V.term(sw)
+            if t.get("k") != "switch" and "discr" not in t:
+                continue
+            n_guard += 1
+            e = flow.expr_of(V, t["discr"], sw)
+            _, calls = flow.expr_mentions(e)
+            if any(not STRUCT_API.search(c) for c in calls):
+                nonstruct.append((sw, sorted(c for c in calls if not STRUCT_API.search(c))))
+    rep.floor(R, "guards in front of the accepting exit", n_guard, 2)
+    # bytes a content-level guard may test: '/' (47) and NUL (0) cannot occur in a stored unix name
+    bad = set()
+    if nonstruct:
+        for b in fam:
+            for bi, blk in enumerate(b.blocks):
+                t = blk["t"]
+                if "targets" in t and t.get("discr_ty") in ("u8", "char", "u16", "u32"):
+                    for v, _ in t["targets"]:
+                        if int(v) not in (0, 47):
+                            bad.add(int(v))
+                for s_ in blk["s"]:
+                    if s_[0] == "=" and s_[2][0] == "bin" and s_[2][1] in ("Eq", "Ne"):
+                        for o in (s_[2][2], s_[2][3]):
+                            if o[0] == "k" and o[1].get("ty") in ("u8", "char") and isinstance(o[1].get("v"), int) and o[1]["v"] not in (0, 47):
+                                bad.add(o[1]["v"])
+        if not bad and not any(True for _ in nonstruct if False):
+            # a content-level guard whose tested bytes could not be identified: undecided shapes are reported, not assumed fine
+            ident = any("targets" in blk["t"] and blk["t"].get("discr_ty") in ("u8", "char") for b in fam for blk in b.blocks)
+            if not ident:
+                bad.add(-1)
+    ok = not nonstruct or not bad
+    rep.check(R, "check_node_name/refuses-only-by-structure", ok, where=where(V, nonstruct[0][0]) if nonstruct else V.loc(),
+              what="check_node_name refuses a name only for its path structure (every guard in front of Ok tests the component iterator)" + (" or for the bytes '/' and NUL" if nonstruct else "") if ok else
+                   f"check_node_name refuses names by content: a guard through {nonstruct[0][1]} tests byte(s) {sorted(chr(b) if 32 <= b < 127 else b for b in bad)} that unix file names may contain - backup stores such names and check accepts them, but ls / dump / restore of the snapshot abort")
